@@ -330,3 +330,34 @@ func init() {
 		}
 	}
 }
+
+func init() {
+	exploreExtra["wide5"] = func(p *Prog) {
+		c := NewCtx(p, "X", "quick")
+		c.quiet = true
+		ruleOnceResultLost(c, "ONCE", p.ModulePkgs())
+		for _, pk := range p.ModulePkgs() {
+			func() {
+				defer func() { recover() }()
+				c12NilMeansDeleted(c, pk)
+			}()
+			func() {
+				defer func() { recover() }()
+				ruleSameCanonicaliser(c, "SAME-CANONICAL", pk, 0)
+			}()
+			func() {
+				defer func() { recover() }()
+				c14WrappersStateless(c, pk)
+			}()
+		}
+		ruleDelegateErr(c, "DELEGATE-ERR", p.ModulePkgs())
+		n := map[string]int{}
+		for _, o := range c.Obls {
+			n[o.Rule]++
+			if !o.OK && o.Instance != "anchor" {
+				fmt.Printf("%s\t%s\t%s\t%s\n", o.Pos, o.Rule, o.Instance, short(o.Msg, 220))
+			}
+		}
+		fmt.Println(n)
+	}
+}
